@@ -137,14 +137,15 @@ class E2EWorld(World):
                 evs.append(("recv", "S"))
             if st.sd:
                 evs.append(("recv", "D"))
-            if self.link == "k" and st.budget > 0:
+            if self.link == "k" and st.budget > 0 and st.ntx >= self.cfg.get("faults_from_tx", 1):
                 for ch in ("sd", "ds"):
                     q = getattr(st, ch)
                     if not q:
                         continue
                     for kind in self.kinds:
                         if kind in ("drop", "dup", "delay"):
-                            evs.append((kind, ch))
+                            if ch in self.cfg.get("fault_channels", ("sd", "ds")):
+                                evs.append((kind, ch))
                         elif kind == "flip" and ch == "sd" and q[0].d["T"] == "FD" and q[0].d["data"]:
                             evs.append(("flip", ch))
                 if "reject" in self.kinds and not st.D.user.vfs.reject_next:
@@ -154,7 +155,7 @@ class E2EWorld(World):
         for e in ("S", "D"):
             if clock.next_expiry(getattr(st, e).h) is not None:
                 evs.append(("expire", e))
-        if self.cfg.get("tx2") is not None and st.ntx == 1 and self.both_idle(st) and not st.sd and not st.ds and not st.limbo \
+        if self.cfg.get("tx2") is not None and st.ntx == 1 and self.both_idle(st) and (self.link == "chaos" or (not st.sd and not st.ds and (not st.limbo or self.cfg.get("offer_stale")))) \
                 and (st.fin["S"] or st.fin["D"] or st.S.closed):
             evs.append(("put2",))  # a second transaction on the same two handlers (request-level overrides in cfg['tx2'])
         if getattr(st, "busy_puts", 0) > 0 and st.S.h.state == CfdpState.BUSY:
@@ -210,6 +211,12 @@ class E2EWorld(World):
         if handled:
             out["shell"] = [core.short(m.d) for m in replies]
             self._send(st, who, replies)
+            if self.cfg.get("offer_stale") and ent.h.state == CfdpState.BUSY:
+                # a less protective entity: the PDU of the closed transaction is also handed to the handler, which is busy with
+                # another transaction and has to refuse it itself (its own transaction id check)
+                obs, msgs = ent.step(msg.fresh())
+                self._entity_obs(st, who, obs, msgs, out)
+                self._send(st, who, msgs)
             return
         out["pdu_d"] = msg.d
         out["pre_step"] = ent.h.states.step.name
